@@ -90,7 +90,11 @@ GarbleTargets == {"open", "get-running", "get-candidate", "load", "commit", "clo
 (* systematic: the reply cut after its N-th tag, and with its N-th element removed *)
 PositionCases == {[target |-> t, index |-> 0, kind |-> "mut:trunc@" \o ToString(i)] : t \in {"get-running", "get-candidate"}, i \in 0..(IF Depth = 0 THEN 69 ELSE 139)}
                  \cup {[target |-> t, index |-> 0, kind |-> "mut:del@" \o ToString(i)] : t \in {"get-running", "get-candidate"}, i \in 0..(IF Depth = 0 THEN 34 ELSE 69)}
-GarbleCases == PositionCases \cup {[target |-> t, index |-> IF t = "load" THEN i ELSE 0, kind |-> "mut:" \o m] :
+(* "absurd numbers": the N-th number of the reply (in attribute values and in text alike) replaced by 2^63, 2^64-1, *)
+(* forty digits, a negative one                                                                                  *)
+NumberCases == {[target |-> t, index |-> 0, kind |-> "mut:num" \o v \o "@" \o ToString(i)] :
+                  t \in {"get-running", "get-candidate"}, v \in {"63", "64", "40", "neg"}, i \in 0..(IF Depth = 0 THEN 24 ELSE 99)}
+GarbleCases == PositionCases \cup NumberCases \cup {[target |-> t, index |-> IF t = "load" THEN i ELSE 0, kind |-> "mut:" \o m] :
                    t \in (IF Depth = 0 THEN {"get-running", "get-candidate", "load"} ELSE GarbleTargets), m \in Mutations, i \in 1..2}
 
 (* C02 "for all installed states": states in the ephemeral instance that the agent did not write itself *)
